@@ -81,6 +81,8 @@ impl CrateCfg {
 
 #[derive(Clone, Debug)]
 pub struct CompileError {
+    /// rustc error code (E0599 ...); None for compile_error! / parse errors
+    pub code: Option<String>,
     pub enum_name: Option<String>,
     pub tag: Option<String>,
     pub message: String,
@@ -321,6 +323,7 @@ pub fn cargo_build(env: &Env, cfg: &CrateCfg, em: &Emitted, check_only: bool) ->
             continue;
         }
         let rendered = m["rendered"].as_str().unwrap_or("").to_string();
+        let code = m["code"]["code"].as_str().map(|s| s.to_string());
         // primary span in one of our shard files
         let mut placed = false;
         if let Some(spans) = m["spans"].as_array() {
@@ -337,7 +340,7 @@ pub fn cargo_build(env: &Env, cfg: &CrateCfg, em: &Emitted, check_only: bool) ->
                         .find(|(l, _)| *l == line)
                         .map(|x| x.1.clone())
                         .or_else(|| lay.ranges.iter().find(|(a, b, _)| line >= *a && line <= *b).map(|x| x.2.clone()));
-                    let ce = CompileError { enum_name: en.clone(), tag, message: msg.clone(), rendered: rendered.clone(), file: file.to_string(), line };
+                    let ce = CompileError { code: code.clone(), enum_name: en.clone(), tag, message: msg.clone(), rendered: rendered.clone(), file: file.to_string(), line };
                     if en.is_some() {
                         errors.push(ce);
                     } else {
@@ -349,7 +352,7 @@ pub fn cargo_build(env: &Env, cfg: &CrateCfg, em: &Emitted, check_only: bool) ->
             }
         }
         if !placed {
-            foreign.push(CompileError { enum_name: None, tag: None, message: msg, rendered, file: String::new(), line: 0 });
+            foreign.push(CompileError { code: code.clone(), enum_name: None, tag: None, message: msg, rendered, file: String::new(), line: 0 });
         }
     }
     let tail: String = err.lines().rev().take(30).collect::<Vec<_>>().into_iter().rev().collect::<Vec<_>>().join("\n");
